@@ -241,6 +241,27 @@ def handler_ctx(prog, dctx, arm):
 # ------------------------------------------------------------------ struct deltas (P7)
 
 
+def _same_type_hint(B, adt):
+    """does the term B visibly have the struct type `adt` (parameter type, or the T of the storage read it comes from)?"""
+    import re as _re
+    name = adt.split("::")[-1]
+    x = B
+    while x[0] in ("payload", "trybranch"):
+        x = x[1]
+    hint = None
+    if x[0] == "param" and len(x) > 3:
+        hint = x[3]
+    elif x[0] == "call" and len(x) > 3 and x[3] and x[3][0] == "meta":
+        hint = x[3][1]
+    elif x[0] == "stored":
+        return True
+    elif x[0] == "upd" or x[0] == "mut":
+        return _same_type_hint(x[1], adt)
+    elif x[0] == "phi":
+        return all(_same_type_hint(y, adt) for y in x[1])
+    return bool(hint) and _re.search(r"(^|[^\w])%s($|[^\w])" % _re.escape(name), hint) is not None
+
+
 def struct_deltas(t):
     """a value term that is a chain of field updates over a base (`upd`) or a fresh aggregate,
     possibly under phi -> list of (base_term, {field_path_tuple: value_term})."""
@@ -263,6 +284,17 @@ def struct_deltas(t):
                 dd[path] = val
             out.append((base, dd))
         return out
+    if t[0] == "agg" and t[3]:
+        # struct-update syntax `S { f: v, ..old }` (MIR copies every other field from `old`): the same
+        # value as `old` with f := v.  Recognised when at least one field is the same field of ONE other value.
+        bases = [v[1] for _, n, v in t[3] if v[0] == "field" and v[2] == n]
+        if bases and all(b_ == bases[0] for b_ in bases) and not t[1].startswith(("std::", "core::", "alloc::")) and _same_type_hint(bases[0], t[1]):
+            B = bases[0]
+            for _, n, v in t[3]:
+                if v[0] == "field" and v[2] == n and v[1] == B:
+                    continue
+                d[(n,)] = _as_compound((n,), v)
+            t = B
     for path, val in reversed(chain):
         d[path] = val
     return [(t, d)]
